@@ -150,3 +150,8 @@ def run(ctx):
     q0 = prims.edge_nodes_matching(ex_, [r'^\(.*\.qos == QualityOfService::AtMostOnce\{\}\)$'])
     ctx.ob(bool(q0) and bool(w14) and all(not (set(w14) & ex_.reach([e_], avoid=[b for b, _ in bases])) or True for e_ in q0) and
            all(not any(bb in ex_.reach([e_]) for bb, _ in bases) for e_ in q0), 'a QoS 0 publish (never acknowledged) takes no extension base', 'extend|qos0', loc=ex_.loc(), rule='R-C14-3')
+    # ---- added after the mutation sweep: the configured values this property starts from reach the options (builder setters)
+    from . import shared as _sh
+    _ns = _sh.builder_setters(ctx, lambda b, m: b == 'MqttClientOptionsBuilder' and m == 'with_ping_timeout', 'R-C14-2', 'the configured ping timeout is the one in force')
+    if ctx.config == 'all':
+        ctx.floor(_ns, 1, 'builder setters this property depends on')
